@@ -166,6 +166,123 @@ def names_tie(ctx, ir):
     return {"graphs": n_cases, "distribution": dist}
 
 
+def alias_tie(ctx, ir):
+    """outputs that are graph inputs / repeat an earlier output: real aliasing step vs IoAlias.alias_loop, and the
+    contract decided on every real result (each named output has a value of its own, is an Identity of the original,
+    carries exactly the user's name, all value names distinct)."""
+    from jax2onnx import user_interface as ui
+    rng = ctx.rng
+    n_cases = 200 if ctx.tier == "quick" else 2000
+    rows, diverge = [], []
+    dist = {"graphs": 0, "aliases": 0, "name_loop_iterations>0": 0, "no_alias_needed": 0}
+    for ci in range(n_cases):
+        k_in, m = rng.randint(1, 3), rng.randint(1, 3)
+        ins = [ir.val(f"in_{i}", ir.DataType.FLOAT, (2,)) for i in range(k_in)]
+        pool, nodes, mids = list(ins), [], []
+        for j in range(m):
+            o = ir.val(f"t{j}", ir.DataType.FLOAT, (2,))
+            nodes.append(ir.Node("", "Relu", [rng.choice(pool)], outputs=[o], name=f"n{j}"))
+            pool.append(o)
+            mids.append(o)
+        n_out = rng.randint(1, 4)
+        outs = [rng.choice(pool) for _ in range(n_out)]
+        # decoys carrying the names the aliasing would like to use, so that the `while` loop has to iterate
+        decoys = []
+        for idx, v in enumerate(outs):
+            nm = f"{v.name}_alias_{idx}"
+            for _ in range(rng.choice([0, 0, 1, 2])):
+                if nm not in [d.name for d in decoys]:
+                    d = ir.val(nm, ir.DataType.FLOAT, (2,))
+                    nodes.append(ir.Node("", "Relu", [ins[0]], outputs=[d], name=f"d{len(decoys)}"))
+                    decoys.append(d)
+                nm += "_"
+        allv = ins + mids + decoys
+        g = ir.Graph(ins, outs, nodes=nodes, name="g", opset_imports={"": 23})
+        model = ir.Model(g, ir_version=10)
+        before = [v.name for v in allv]
+        out_idx = [allv.index(v) for v in outs]
+        bases = [f"{v.name}_alias_{i}" for i, v in enumerate(outs)]
+        out_names = [f"o{i}" for i in range(n_out)]
+        n_nodes = len(nodes)
+        call = {"kind": "custom_names_alias", "values": before, "n_inputs": k_in, "outputs": out_idx,
+                "nodes": [[n.op_type, [allv.index(i) for i in n.inputs], allv.index(n.outputs[0])] for n in nodes], "output_names": out_names}
+        try:
+            ui._apply_custom_io_names_on_ir(model, input_names=None, output_names=out_names, positional_input_count=k_in)
+        except Exception as exc:  # noqa: BLE001
+            call["real"] = f"{type(exc).__name__}: {exc}"
+            diverge.append(call)
+            continue
+        new_nodes = list(g)[n_nodes:]
+        ids = {id(v): i for i, v in enumerate(allv)}
+        al = []
+        for nd in new_nodes:
+            ids[id(nd.outputs[0])] = len(ids)
+            nm = nd.name or ""
+            al.append((ids[id(nd.outputs[0])], nm[:-len("_identity")] if nm.endswith("_identity") else nm, ids.get(id(nd.inputs[0]), -1), nd.op_type))
+        os_real = [ids.get(id(v), -1) for v in g.outputs]
+        dist["graphs"] += 1
+        dist["aliases"] += len(al)
+        dist["no_alias_needed"] += not al
+        dist["name_loop_iterations>0"] += sum(1 for (_, a, _, _), in zip(al) if a.endswith("_"))
+        call["real"] = {"outputs": os_real, "aliases": [list(a) for a in al], "output_value_names": [v.name for v in g.outputs]}
+        names_after = [v.name for v in allv] + [nd.outputs[0].name for nd in new_nodes]
+        problems = []
+        if len(os_real) != n_out:
+            problems.append(f"{len(os_real)} outputs instead of {n_out}")
+        if len(set(os_real)) != len(os_real) or any(o < k_in for o in os_real):
+            problems.append(f"outputs {os_real} are not values of their own (inputs are 0..{k_in - 1})")
+        if [v.name for v in g.outputs] != out_names:
+            problems.append(f"output names {[v.name for v in g.outputs]} instead of {out_names}")
+        if len(set(names_after)) != len(names_after):
+            problems.append(f"value names collide: {sorted(n for n in set(names_after) if names_after.count(n) > 1)}")
+        for pos, (src, o) in enumerate(zip(out_idx, os_real)):
+            if o != src and not any(a[0] == o and a[2] == src and a[3] == "Identity" for a in al):
+                problems.append(f"output {pos} is neither the original value nor an Identity of it")
+        if problems:
+            ctx.violate("custom-names:alias", f"naming step on a graph with values {before}, inputs 0..{k_in - 1}, outputs {out_idx}, "
+                        f"output_names={out_names}: " + "; ".join(problems), call)
+        rows.append((out_idx, bases, list(range(k_in)), before, len(allv), os_real, [(a[0], a[1], a[2]) for a in al]))
+    seen = set()
+    ctx.violations[:] = [v for v in ctx.violations if not (v["key"] == "custom-names:alias" and (v["key"] in seen or seen.add(v["key"])))]
+
+    def slit(x):
+        return '"' + x + '"'
+
+    def nl(l):
+        return "[" + "; ".join(f"{int(i)}%nat" for i in l) + "]"
+
+    def sl(l):
+        return "[" + "; ".join(slit(x) for x in l) + "]"
+    head = common.CASES_HEADER + ("From J2O Require Import IoAlias.\nOpen Scope string_scope.\n"
+        "Definition leq_ (a b : list nat) : bool := (Nat.eqb (List.length a) (List.length b)) && forallb (fun p => Nat.eqb (fst p) (snd p)) (combine a b).\n"
+        "Definition aeq_ (a b : list (nat * string * nat)) : bool := (Nat.eqb (List.length a) (List.length b)) && "
+        "forallb (fun p => let '((i, n, s), (i', n', s')) := p in Nat.eqb i i' && String.eqb n n' && Nat.eqb s s') (combine a b).\n"
+        "Definition acase_ := (list nat * list string * list nat * list string * nat * list nat * list (nat * string * nat))%type.\n"
+        "Definition acmp_ (c : acase_) : bool := let '(outs, bases, taken, ex, nxt, os, al) := c in\n"
+        "  let '(os', al') := alias_loop outs bases taken ex nxt in leq_ os os' && aeq_ al al'.\n")
+    txt = head
+    chunks = [rows[i:i + 100] for i in range(0, len(rows), 100)]
+    for k, ch in enumerate(chunks):
+        txt += f"Definition as{k} : list acase_ := [\n" + ";\n".join(
+            f"({nl(o)}, {sl(b)}, {nl(t)}, {sl(ex)}, {nx}%nat, {nl(osr)}, [" + "; ".join(f"({i}%nat, {slit(n)}, {s_}%nat)" for i, n, s_ in al) + "])"
+            for o, b, t, ex, nx, osr, al in ch) + "].\n"
+        txt += f"Eval vm_compute in bad_idx_ acmp_ 0 as{k}.\n"
+    ok, out = common.coq_eval_file(ctx, "c05_alias_cases", txt)
+    lists = re.findall(r"=\s*(\[[^\]]*\]|nil)\s*:\s*list nat", out.replace("\n", " "))
+    if not ok or len(lists) != len(chunks):
+        ctx.oblige("tie:IoAlias.alias_loop-vs-real-aliasing-step", False, "tie", out[-1500:])
+    else:
+        bad = []
+        for k, ch in enumerate(chunks):
+            l = lists[k]
+            bad += [ch[int(t.replace("%nat", ""))] for t in ([] if l in ("nil", "[]") else l.strip("[]").split(";")) if t.strip()]
+        ctx.oblige(f"tie:IoAlias.alias_loop-equals-real-aliasing-step({len(rows)} graphs)", not bad, "tie",
+                   "" if not bad else "model and implementation differ on " + "; ".join(str(b)[:300] for b in bad[:4]))
+    ctx.oblige(f"tie:aliasing-step-accepts-fresh-output-names({n_cases} graphs)", not diverge, "tie",
+               "" if not diverge else json.dumps(diverge[:3]))
+    return dist
+
+
 def run(ctx):
     import jax
     import onnx_ir as ir
@@ -177,8 +294,8 @@ def run(ctx):
         "Coq 8.16.1 kernel; C05 theorems closed under the global context",
         "tools/py2coq.py + PyLib.v string functions for _should_always_keep (validated below against the running Python)",
         "hand model `prune` of prune_unused_graph_inputs_ir tied by differential run",
-        "hand model IoNames.apply_names of the decision core of _apply_custom_io_names_on_ir (after its aliasing step, which the tied "
-        "graphs do not trigger), tied by differential run on random onnx_ir graphs; the naming contract is also decided directly on every real result",
+        "hand model IoNames.apply_names of the decision core of _apply_custom_io_names_on_ir and IoAlias.alias_loop of its aliasing step (the f-string of the alias base name is formatted by the harness)"
+        ", tied by differential run on random onnx_ir graphs; the naming contract is also decided directly on every real result",
         "tools/onnx2coq.py + Onnx.v (trusted converter of the exported ModelProto); jax.eval_shape as the JAX-side oracle of the signature",
     ]
     common.build_props(ctx, "C05", ["GenInterface"])
@@ -327,6 +444,7 @@ def run(ctx):
     if all_ok:
         ctx.oblige(f"validator:interface_ok evaluated in Coq on {len(items)} real exports", True, "tie", f"{n_bad} rejected by the checker")
     names_cov = names_tie(ctx, ir)
+    names_cov["aliasing"] = alias_tie(ctx, ir)
     ctx.coverage.update({"custom_names": names_cov, "evaluations": len(rows) + len(items), "distinct_nontrivial": len(items),
                          "rule": "prune: random graphs over a pool of 19 input names x used/unused; interface: 17 programs (unused inputs, constant/duplicated/aliased outputs, "
                                  "pytrees, int/bool/f16, symbolic dims, 4-D images) x {single,double} x {default,custom names} x layout flags, checked against jax.eval_shape",
@@ -339,6 +457,24 @@ def run(ctx):
 def replay(path):
     from jax2onnx import to_onnx
     r = json.load(open(path))["replay"]
+    if r.get("kind") == "custom_names":
+        import onnx_ir as ir
+        from jax2onnx import user_interface as ui
+        allv = [ir.val(nm, ir.DataType.FLOAT, (2,)) for nm in r["values"]]
+        nodes = [ir.Node("", op, [allv[i] for i in ins_], outputs=[allv[o]], name=f"n{k}") for k, (op, ins_, o) in enumerate(r["nodes"])]
+        g = ir.Graph([allv[i] for i in r["inputs"]], [allv[i] for i in r["outputs"]], nodes=nodes, name="g", opset_imports={"": 23})
+        try:
+            ui._apply_custom_io_names_on_ir(ir.Model(g, ir_version=10), input_names=r["input_names"], output_names=r["output_names"],
+                                            positional_input_count=len(r["inputs"]))
+        except ValueError as exc:
+            print("refused:", exc)
+            return 0
+        after = [v.name for v in allv]
+        want = dict(zip(r["inputs"], r["input_names"] or []))
+        want.update(zip(r["outputs"], r["output_names"] or []))
+        bad = len(set(after)) != len(after) or any(after[i] != (want.get(i, r["values"][i])) for i in range(len(after)))
+        print("names before", r["values"], "after", after)
+        return 1 if bad else 0
     if r.get("kind") == "prune_names":
         import onnx_ir as ir
         from jax2onnx.converter import ir_optimizations as opt
